@@ -38,15 +38,27 @@ def run_scenarios(rep, specs, workers=None, time_cap=None):
     return results
 
 
+def usable(rep, r):
+    """False (and a violation recorded) when the scenario could not even be prepared because a preparatory call on
+    the code under test failed; raises for genuine harness errors."""
+    if "setup_failure" in r:
+        rep.violation({"kind": "exception-from-code-under-test", "scenario": r["name"],
+                       "what": "the scenario could not be prepared or driven: " + r["setup_failure"][:160]},
+                      {"spec": r["spec"], "detail": r["setup_failure"]})
+        return False
+    if "harness_error" in r:
+        raise common.HarnessError("scenario %s: %s" % (r["name"], r["harness_error"]))
+    return True
+
+
 def finish_t(rep, results, step_kind="step"):
     cov = rep.coverage
     tot = {"executions": 0, "states": 0, "transitions": 0, "terminals": 0}
     per = {}
     vac = []
     samples = []
+    results = [r for r in results if usable(rep, r)]
     for r in results:
-        if "harness_error" in r:
-            raise common.HarnessError("scenario %s: %s" % (r["name"], r["harness_error"]))
         for k in tot:
             tot[k] += r[k]
         verd = {}
